@@ -88,6 +88,30 @@ def get_encoder(table, prot, pol, warn=False, nao=False):
         _ENC[key] = le.UnicodeToLatexEncoder(**kw)
     return _ENC[key]
 
+def get_encoder_ruleobjs(c, warn, nao):
+    """the built-in table given as the rule objects of get_builtin_conversion_rules(); the list object was first used by
+    other parts of the program (another encoder, a partial encoder) — none of which may change what it means"""
+    from pylatexenc import latexencode as le
+    rules = le.get_builtin_conversion_rules(c['table'])
+    for h in c.get('hist') or []:
+        try:
+            if h == 'partial':
+                le.PartialLatexToLatexEncoder(conversion_rules=rules)
+            elif h == 'partial-use':
+                le.PartialLatexToLatexEncoder(conversion_rules=rules, unknown_char_warning=False).unicode_to_latex('a\\x{b}$c$ \u00e9')
+            elif h == 'plain-none':
+                le.UnicodeToLatexEncoder(conversion_rules=rules, replacement_latex_protection='none', unknown_char_warning=False).unicode_to_latex('\u00e9%{')
+            elif h == 'plain-nao':
+                le.UnicodeToLatexEncoder(conversion_rules=rules, non_ascii_only=True, unknown_char_policy='ignore', unknown_char_warning=False).unicode_to_latex('\u4e7e%')
+        except Exception:
+            pass
+    kw = dict(conversion_rules=rules, latex_string_class=ChunkList)
+    if nao: kw['non_ascii_only'] = True
+    if not warn: kw['unknown_char_warning'] = False
+    if c['prot'] != 'default': kw['replacement_latex_protection'] = c['prot']
+    if c['pol'] != 'default': kw['unknown_char_policy'] = c['pol']
+    return le.UnicodeToLatexEncoder(**kw)
+
 def passes_through(ch):
     o = ord(ch)
     return (32 <= o <= 127) or ch in '\n\r\t'
@@ -220,7 +244,10 @@ def run_impl(c):
         unmatched = [ch for ch in sn if ord(ch) >= 128 and ord(ch) not in table]
     else:
         unmatched = [ch for ch in sn if ord(ch) not in table and not passes_through(ch)]
-    enc = get_encoder(c['table'], c['prot'], c['pol'], warn=(sum(map(ord, c['s'])) % 2 == 1), nao=nao)
+    if c.get('via') == 'ruleobjs':
+        enc = get_encoder_ruleobjs(c, (sum(map(ord, c['s'])) % 2 == 1), nao)
+    else:
+        enc = get_encoder(c['table'], c['prot'], c['pol'], warn=(sum(map(ord, c['s'])) % 2 == 1), nao=nao)
     try:
         res = enc.unicode_to_latex(s); exc = None
     except Exception as e:          # every exception class is an observable here
@@ -359,6 +386,15 @@ def cases(tier, rng):
         c = encp(s, 'defaults', rng.choice(PROTS), rng.choice(POLS))
         c['via'] = 'shorthand'
         c['pre'] = [dict(rng.choice(PRE)) for _ in range(rng.randint(1, 2))]
+        yield c
+    # 0d. the table given as rule objects, the list object shared with encoders built before
+    HIST = ['partial', 'partial-use', 'plain-none', 'plain-nao']
+    for _ in range(700 if quick else 10000):
+        s = ''.join(rng.choice(ODD) if rng.random() < 0.3 else rng.choice(SYMS + ['\xe9', '\u4e7e', '\\begin{x}', '\\x', 'a']) for _ in range(rng.randint(1, 6)))
+        t_, p_, q_ = rng.choice(COMBOS)
+        c = encp(s, t_, p_, q_)
+        c['via'] = 'ruleobjs'
+        c['hist'] = [rng.choice(HIST) for _ in range(rng.randint(0, 2))]
         yield c
     # 1. every ordering of the active characters with a letter, space, newline
     maxlen = 4 if quick else 5
